@@ -599,7 +599,8 @@ func graphDump(g *graph.DependencyGraph) string {
 // structDump is the deep dump without the caches: what "the graph exactly as
 // it was" refers to (stale caches are caught by the query comparison instead).
 func structDump(g *graph.DependencyGraph) string {
-	return kit.Dump(g, "DependencyGraph.cycleCache", "DependencyGraph.cycleCacheDirty", "DependencyGraph.sortedNodes", "DependencyGraph.sortedNodesDirty", "Node.Visited", "Node.Visiting")
+	return kit.Dump(g, "DependencyGraph.cycleCache", "DependencyGraph.cycleCacheDirty", "DependencyGraph.sortedNodes", "DependencyGraph.sortedNodesDirty", "Node.Visited", "Node.Visiting",
+		"Node.Dependents") // dependents are an unordered set (compared by the GetDependents query)
 }
 
 // ---- explicit-state search
@@ -651,6 +652,11 @@ func replayG(pool []gnode, hist []gop) (*gstate, []Finding) {
 		f := st.apply(o)
 		if i == len(hist)-1 {
 			fs = f
+		} else if !st.diverged && !st.hung {
+			// queries run after every operation (this is what fills the caches that a
+			// later mutation must invalidate); their answers were compared when this
+			// prefix was the end of a history
+			st.queries(i % 3)
 		}
 	}
 	if st.diverged {
@@ -763,11 +769,16 @@ func init() {
 				}
 				return jobs
 			}
-			return []mc.Job{
-				{Name: "c19/pool2", Run: func(r *mc.Report) { c19Search(r, 2, 2, 200000, 0, 1) }},
-				{Name: "c19/pool3", Weight: 10, Run: func(r *mc.Report) { c19Search(r, 3, 1, 60000, 0, 1) }},
-				{Name: "c19/pool3-2deps", Weight: 10, Run: func(r *mc.Report) { c19Search(r, 3, 2, 12000, 0, 1) }},
+			jobs := []mc.Job{{Name: "c19/pool2", Weight: 20, Run: func(r *mc.Report) { c19Search(r, 2, 2, 200000, 0, 1) }}}
+			for sh := 0; sh < 10; sh++ {
+				sh := sh
+				jobs = append(jobs, mc.Job{Name: fmt.Sprintf("c19/pool3#%d", sh), Weight: 10, Run: func(r *mc.Report) { c19Search(r, 3, 1, 25000, sh, 10) }})
 			}
+			for sh := 0; sh < 5; sh++ {
+				sh := sh
+				jobs = append(jobs, mc.Job{Name: fmt.Sprintf("c19/pool3-2deps#%d", sh), Weight: 5, Run: func(r *mc.Report) { c19Search(r, 3, 2, 6000, sh, 5) }})
+			}
+			return jobs
 		},
 	})
 }
